@@ -75,7 +75,7 @@ Lemma noalloc_relocate_fields mv : forall L fl sb b ms m d,
 Proof.
   induction L as [|p L IH]; intros fl sb b ms m d; [apply noalloc_nil|].
   destruct fl as [|[a c] fl]; [apply noalloc_nil|]. cbn [relocate_fields].
-  destruct (ntc p).
+  destruct (ntc _ p).
   - pose proof (noalloc_relocate_objs mv p sb b (Z.to_nat c) ms m a (a + d)) as H1.
     destruct (relocate_objs mv p sb b ms m a (a + d) (Z.to_nat c)) as [[ms1 m1] e1].
     specialize (IH fl sb b ms1 m1 d). destruct (relocate_fields mv L fl sb b ms1 m1 d) as [[ms2 m2] e2].
@@ -97,9 +97,9 @@ Qed.
 
 Lemma noalloc_insert_into mv destr L src b junk : noalloc (snd (insert_into mv destr L src b junk)).
 Proof.
-  unfold insert_into. destruct (all_ctriv L && (negb destr || all_dtriv L)).
+  unfold insert_into. destruct (all_ctriv _ L && (negb destr || all_dtriv L)).
   - cbn [snd]. apply noalloc_cons; [reflexivity|apply noalloc_nil].
-  - destruct (all_ctriv L).
+  - destruct (all_ctriv _ L).
     + destruct (destr && negb (all_dtriv L)).
       * pose proof (noalloc_destruct_range L (Z.to_nat (vsize L src)) src 0) as H.
         destruct (destruct_range L src 0 (Z.to_nat (vsize L src))) as [s2 e2]. cbn [snd] in *.
@@ -204,7 +204,7 @@ Lemma noalloc_construct_fields mv : forall L fls fld sb db ms md,
 Proof.
   induction L as [|p L IH]; intros fls fld sb db ms md; [apply noalloc_nil|].
   destruct fls as [|[sa c] fls]; [apply noalloc_nil|]. destruct fld as [|[da c'] fld]; [apply noalloc_nil|].
-  cbn [construct_fields]. destruct (ntc p).
+  cbn [construct_fields]. destruct (ntc _ p).
   - pose proof (noalloc_relocate_objs mv p sb db (Z.to_nat c) ms md sa da) as H1.
     destruct (relocate_objs mv p sb db ms md sa da (Z.to_nat c)) as [[ms1 md1] e1].
     specialize (IH fls fld sb db ms1 md1). destruct (construct_fields mv L fls fld sb db ms1 md1) as [[ms2 md2] e2].
